@@ -475,6 +475,44 @@ pub fn tier3(quick: bool) -> Vec<Program> {
         // the same with two answers
         out.push(Program { nq: 1, body: vec![G::Fresh(vec![1, 2, 3, 4], vec![G::Conde(vec![vec![G::Eq(q.clone(), T::I(10))], vec![G::Eq(q.clone(), T::I(20))]]), doms3.clone(), dom4.clone(), dist.clone()])] });
     }
+    // hidden FD variables that are ALIASED (`a == b` binds one to the other and moves its domain):
+    // a constraint that names the bound side, is not refuted by bounds propagation, and has no
+    // (or few) integer solutions — the witness search over the hidden variables has to reach it
+    // under either name, in every statement order
+    {
+        let dm = G::InFd(vec![a.clone(), b.clone()], Dom::Range(0, 3));
+        let dc = G::InFd(vec![c.clone()], Dom::Range(0, 9));
+        let three = T::I(3);
+        let conss: Vec<(Vec<G>, G)> = vec![
+            (vec![G::Fd(FdKind::Plus, vec![a.clone(), a.clone(), three.clone()])], G::Eq(q.clone(), T::I(10))),
+            (vec![G::Fd(FdKind::Plus, vec![b.clone(), b.clone(), three.clone()])], G::Eq(q.clone(), T::I(10))),
+            (vec![G::Fd(FdKind::Plus, vec![a.clone(), b.clone(), three.clone()])], G::Eq(q.clone(), T::I(10))),
+            (vec![G::Fd(FdKind::Plus, vec![b.clone(), a.clone(), three.clone()])], G::Eq(q.clone(), T::I(10))),
+            (vec![G::Fd(FdKind::Times, vec![a.clone(), a.clone(), c.clone()]), dc.clone()], G::Eq(q.clone(), c.clone())),
+            (vec![G::Fd(FdKind::Times, vec![a.clone(), b.clone(), c.clone()]), dc.clone()], G::Eq(q.clone(), c.clone())),
+            (vec![G::Fd(FdKind::Times, vec![b.clone(), b.clone(), c.clone()]), dc.clone()], G::Eq(q.clone(), c.clone())),
+            (vec![G::Fd(FdKind::Minus, vec![c.clone(), a.clone(), b.clone()]), dc.clone()], G::Eq(q.clone(), c.clone())),
+        ];
+        for alias in [G::Eq(a.clone(), b.clone()), G::Eq(b.clone(), a.clone())] {
+            for (cs, qeq) in &conss {
+                let mut items: Vec<Vec<G>> = vec![vec![alias.clone()], vec![dm.clone()], cs.clone()];
+                if quick {
+                    items.rotate_left(out.len() % 3);
+                    let o: Vec<G> = items.concat();
+                    out.push(Program { nq: 1, body: vec![G::Fresh(vec![1, 2, 3], [vec![qeq.clone()], o.clone()].concat())] });
+                    items.swap(0, 2);
+                    let o2: Vec<G> = items.concat();
+                    out.push(Program { nq: 1, body: vec![G::Fresh(vec![1, 2, 3], [o2, vec![qeq.clone()]].concat())] });
+                } else {
+                    for perm in permutations(&items) {
+                        let o: Vec<G> = perm.concat();
+                        out.push(Program { nq: 1, body: vec![G::Fresh(vec![1, 2, 3], [vec![qeq.clone()], o.clone()].concat())] });
+                        out.push(Program { nq: 1, body: vec![G::Fresh(vec![1, 2, 3], [o, vec![qeq.clone()]].concat())] });
+                    }
+                }
+            }
+        }
+    }
     // FD under conde
     for d in &doms {
         let dm = G::InFd(vec![a.clone(), b.clone()], d.clone());
